@@ -178,6 +178,14 @@ impl Ctx {
         self.stop.load(Ordering::Relaxed)
     }
 
+    /// VERIF_ONLY_PART=<substring> restricts a run to matching parts (used for sensitivity experiments only)
+    pub fn part_enabled(&self, part: &str) -> bool {
+        match std::env::var("VERIF_ONLY_PART") {
+            Ok(p) if !p.is_empty() => part.contains(&p),
+            _ => true,
+        }
+    }
+
     /// Merge a worker's statistics; `part` names the sub-check for the sample grouping.
     pub fn merge(&self, part: &str, s: Stats) {
         self.evals.fetch_add(s.evals, Ordering::Relaxed);
@@ -462,11 +470,11 @@ fn seed_bytes(seed: u64, part: &str, worker: usize) -> [u8; 32] {
     out
 }
 
-pub fn make_runner(seed: u64, part: &str, worker: usize, cases: u32) -> TestRunner {
+pub fn make_runner(seed: u64, part: &str, worker: usize, cases: u32, max_shrink_iters: u32) -> TestRunner {
     let config = Config {
         cases,
         failure_persistence: None,
-        max_shrink_iters: 20_000,
+        max_shrink_iters,
         max_global_rejects: 1_000_000,
         max_local_rejects: 1_000_000,
         verbose: 0,
@@ -487,11 +495,22 @@ where
     run_generated_n(ctx, part, total_cases, ctx.workers, make_strategy, check)
 }
 
-pub fn run_generated_n<S, F>(
+pub fn run_generated_n<S, F>(ctx: &Ctx, part: &str, total_cases: u64, workers: usize, make_strategy: impl Fn() -> S + Sync, check: F)
+where
+    S: Strategy,
+    S::Value: Serialize + Debug + Clone,
+    F: Fn(&S::Value, &mut Stats) -> Result<(), String> + Sync,
+{
+    run_generated_opts(ctx, part, total_cases, workers, 20_000, make_strategy, check)
+}
+
+/// `max_shrink_iters` bounds the shrinking effort (cases that sleep are expensive to re-run)
+pub fn run_generated_opts<S, F>(
     ctx: &Ctx,
     part: &str,
     total_cases: u64,
     workers: usize,
+    max_shrink_iters: u32,
     make_strategy: impl Fn() -> S + Sync,
     check: F,
 ) where
@@ -499,7 +518,7 @@ pub fn run_generated_n<S, F>(
     S::Value: Serialize + Debug + Clone,
     F: Fn(&S::Value, &mut Stats) -> Result<(), String> + Sync,
 {
-    if ctx.stopped() {
+    if ctx.stopped() || !ctx.part_enabled(part) {
         return;
     }
     let workers = workers.max(1);
@@ -509,7 +528,7 @@ pub fn run_generated_n<S, F>(
             let check = &check;
             let make_strategy = &make_strategy;
             sc.spawn(move || {
-                let mut runner = make_runner(ctx.seed, part, w, per);
+                let mut runner = make_runner(ctx.seed, part, w, per, max_shrink_iters);
                 let strategy = make_strategy();
                 let stats = std::cell::RefCell::new(Stats::new());
                 let scratch = std::cell::RefCell::new(Stats::new());
@@ -538,6 +557,10 @@ pub fn run_generated_n<S, F>(
                                     }
                                     return Ok(());
                                 }
+                            }
+                            if !failed.get() {
+                                // tell the other workers at once: they stop generating while this one shrinks
+                                ctx.stop.store(true, Ordering::Relaxed);
                             }
                             failed.set(true);
                             Err(TestCaseError::fail(msg))
@@ -568,7 +591,7 @@ pub fn par_range<F>(ctx: &Ctx, part: &str, n: u64, f: F)
 where
     F: Fn(u64, &mut Stats) -> Result<(), (Value, String)> + Sync,
 {
-    if ctx.stopped() {
+    if ctx.stopped() || !ctx.part_enabled(part) {
         return;
     }
     let next = AtomicU64::new(0);
